@@ -11,6 +11,7 @@ pub mod chmux_data;
 pub mod chmux_life;
 pub mod chmux_misc;
 pub mod chmux_peer;
+pub mod rwlock;
 
 pub type MuxResult = Result<(), ChMuxError<io::Error, io::Error>>;
 
@@ -196,5 +197,67 @@ pub fn send_err_class(e: &chmux::SendError) -> &'static str {
         chmux::SendError::ChMux => "chmux",
         chmux::SendError::Closed { gracefully: true } => "closed_graceful",
         chmux::SendError::Closed { gracefully: false } => "closed_dropped",
+    }
+}
+
+
+// ------------------------------------------------------------------------------------------------ remoc connections
+
+use remoc::rch::base;
+
+/// A full remoc connection (chmux + initial base channel in both directions) between endpoints A (label 1) and
+/// B (label 2) over the harness transport; frames are delivered by a seeded background pump.
+pub struct RemConn<TA, TB> {
+    pub a_tx: base::Sender<TA>,
+    pub a_rx: base::Receiver<TB>,
+    pub b_tx: base::Sender<TB>,
+    pub b_rx: base::Receiver<TA>,
+    pub ab: Link,
+    pub ba: Link,
+    pub conn: [JoinHandle<MuxResult>; 2],
+    pub pump: JoinHandle<()>,
+}
+
+pub async fn rem_connect<TA, TB>(a: &EpCfg, b: &EpCfg, seed: u64, label_base: u64) -> RemConn<TA, TB>
+where
+    TA: remoc::RemoteSend,
+    TB: remoc::RemoteSend,
+{
+    let (ab, ba) = link_pair();
+    let quiet = std::env::var_os("VERIF_WIRE").is_none();
+    ab.set(|st| st.quiet = quiet);
+    ba.set(|st| st.quiet = quiet);
+    let (a_sink, b_stream) = ab.halves();
+    let (b_sink, a_stream) = ba.halves();
+    let pump = spawn_pump(vec![ab.clone(), ba.clone()], seed);
+    let fa = Labeled::new(label_base + 1, remoc::Connect::framed::<_, _, TA, TB, remoc::codec::Default>(a.to_cfg(), a_sink, a_stream));
+    let fb = Labeled::new(label_base + 2, remoc::Connect::framed::<_, _, TB, TA, remoc::codec::Default>(b.to_cfg(), b_sink, b_stream));
+    let (ra, rb) = tokio::join!(fa, fb);
+    let (ca, a_tx, a_rx) = ra.ok().expect("connect A");
+    let (cb, b_tx, b_rx) = rb.ok().expect("connect B");
+    let ha = tokio::spawn(remoc::verif::Deferred::new(Labeled::new(label_base + 1, ca)));
+    let hb = tokio::spawn(remoc::verif::Deferred::new(Labeled::new(label_base + 2, cb)));
+    RemConn { a_tx, a_rx, b_tx, b_rx, ab, ba, conn: [ha, hb], pump }
+}
+
+impl<TA, TB> RemConn<TA, TB> {
+    pub fn links(&self) -> Vec<Link> {
+        vec![self.ab.clone(), self.ba.clone()]
+    }
+}
+
+/// Configuration for upper-layer workloads: small enough to exercise chunking and credit exhaustion.
+pub fn upper_cfg(rng: &mut Rng) -> EpCfg {
+    EpCfg {
+        chunk: *rng.pick(&[16u32, 32, 64, 256]),
+        rbuf: *rng.pick(&[64u32, 128, 512, 4096]),
+        max_data: *rng.pick(&[64usize, 256, 4096]),
+        shared_q: rng.range(1, 4) as usize,
+        tx_q: rng.range(1, 3) as usize,
+        rx_q: rng.range(1, 3) as usize,
+        connect_q: 8,
+        max_ports: std::env::var("VERIF_MAX_PORTS").ok().and_then(|v| v.parse().ok()).unwrap_or(64),
+        max_recv_ports: 32,
+        timeout_ms: 0,
     }
 }
